@@ -91,14 +91,11 @@ theorem jacobian_is_gradient_dir (g : Geo) (fn : Fn) (nd norm : ℝ) (n : ℕ)
   exact this
 
 /-- `BgCompat` holds in the configurations the code produces: background mode const (0), global (2)
-or cluster (3), the clusters being `cl_groups` = `groups[0]`, or `[arange(n)]` when `groups is None`
-(L291-294). -/
+or cluster (3), the clusters being `cl_groups` (`Lsq.clGroups`: `groups[0]`, or `[arange(n)]` when
+`groups is None`, L278-281). -/
 theorem bgCompat_of_code (n : ℕ) (groups : Option Groups) (m : ℕ) (hm : m = 0 ∨ m = 2 ∨ m = 3)
     (hok : kindOK n (kind groups m) = true) :
-    BgCompat (kind groups m)
-      (match groups with
-        | none => [List.range n]
-        | some G => G.headD []) := by
+    BgCompat (kind groups m) (clGroups n groups) := by
   rcases hm with rfl | rfl | rfl
   · simp [kind, BgCompat]
   · cases groups <;> simp [kind, BgCompat]
@@ -110,7 +107,7 @@ theorem bgCompat_of_code (n : ℕ) (groups : Option Groups) (m : ℕ) (hm : m = 
       | cons gs rest =>
         simp only [kind, show (3 : ℕ) ≠ 0 by decide, show (3 : ℕ) ≠ 1 by decide,
           show (3 : ℕ) ≠ 2 by decide, if_false, Nat.sub_self, List.getElem?_cons_zero,
-          List.headD_cons, BgCompat] at hok ⊢
+          List.headD_cons, BgCompat, clGroups] at hok ⊢
         simp only [kindOK, groupListOK_iff] at hok
         intro s hs c hc
         by_cases hcs : c = s
@@ -120,6 +117,27 @@ theorem bgCompat_of_code (n : ℕ) (groups : Option Groups) (m : ℕ) (hm : m = 
           · exact absurd h hcs
           · exact h
           · exact fun r hrc hrs => h r hrs hrc
+
+/-- **unpack looks at `params` only through its constant columns** (model-level counterpart of the
+repaired truncation defect: the start values of the parameters being optimised - and their dtype -
+cannot influence `vect_to_params`).  For every vector, every assignment of modes and every grouping
+accepted by `modesOK`, two parameter arrays of the same shape that agree on the columns of mode 0
+unpack to the same array - provided the groups of every grouped column cover all features (true for
+the clusters `groups[0]`; a custom mode whose groups leave a feature out keeps the old entry there,
+see the example below). -/
+theorem unpack_const_only {α : Type} [Inhabited α] (n : ℕ) (groups : Option Groups)
+    (modes : List ℕ) (v : List α) (cols cols' : List (List α))
+    (hl : cols.length = modes.length) (hl' : cols'.length = modes.length)
+    (hs : shapeOK n cols = true) (hs' : shapeOK n cols' = true)
+    (hok : modesOK n groups modes = true) (hv : v.length = packedLen n groups modes)
+    (hcov : ∀ m ∈ modes, ∀ gs, kind groups m = .grouped gs → ∀ r, r < n → ∃ g ∈ gs, r ∈ g)
+    (hagree : ∀ i, i < modes.length → kind groups (modes.getD i 0) = .const →
+      cols.getD i [] = cols'.getD i []) :
+    unpack n groups modes v cols = unpack n groups modes v cols' := by
+  unfold unpack
+  split
+  · rfl
+  · exact unpackCols_const_only n groups modes v cols cols' hl hl' hs hs' hok (by omega) hcov hagree
 
 /-! ## non-vacuity: 2 features in one cluster, 2-D isotropic gauss -/
 
@@ -134,6 +152,19 @@ example : feed 2 (some [[[0, 1]]]) [0, 1, 0, 0, 3] 1 = (1, [1]) := by decide
 example : (unpack 2 (some [[[0, 1]]]) [0, 1, 0, 0, 3] [5, 6, 7]
     [[0, 0], [1, 1], [0, 2], [0, 0], [1, 1]] : Option (List (List Int))) =
     some [[0, 0], [5, 6], [0, 2], [0, 0], [7, 7]] := by decide
+
+-- unpack_const_only: the start values of the varying columns are irrelevant …
+example : (unpack 2 (some [[[0, 1]]]) [0, 1, 3] [5, 6, 7] [[0, 0], [1, 1], [2, 2]] :
+    Option (List (List Int))) =
+    unpack 2 (some [[[0, 1]]]) [0, 1, 3] [5, 6, 7] [[0, 0], [8, 9], [4, 3]] := by
+  decide
+-- … but the covering hypothesis is needed: custom mode 4 with groups `[[0]]` leaves feature 1 alone
+example :
+    (unpack 2 (some [[[0, 1]], [[0]]]) [4] [5] [[1, 2]] : Option (List (List Int))) =
+      some [[5, 2]] ∧
+    (unpack 2 (some [[[0, 1]], [[0]]]) [4] [5] [[1, 3]] : Option (List (List Int))) =
+      some [[5, 3]] := by
+  decide
 
 /-- all hypotheses of `jacobian_is_gradient` hold on a concrete layout (two overlapping features,
 two pixels), so its conclusion does -/
